@@ -407,6 +407,8 @@ struct SymbolTableBase {
     declarations: HashMap<String, Declaration>,
     namespaces: HashMap<String, Rc<Namespace>>,
     enclosing: Option<Rc<RefCell<SymbolTableBase>>>,
+    // true for the outermost scope of a lambda or task body
+    is_closure_scope: bool,
 }
 
 impl SymbolTableBase {
@@ -427,6 +429,23 @@ impl SymbolTableBase {
                 Some(enclosing) => enclosing.borrow().lookup_namespace(id),
                 None => None,
             },
+        }
+    }
+
+    // whether `id` is declared outside the innermost enclosing lambda or task body
+    fn is_captured(&self, id: &str) -> bool {
+        if self.declarations.contains_key(id) {
+            return false;
+        }
+        match &self.enclosing {
+            Some(enclosing) => {
+                if self.is_closure_scope {
+                    enclosing.borrow().lookup_declaration(id).is_some()
+                } else {
+                    enclosing.borrow().is_captured(id)
+                }
+            }
+            None => false,
         }
     }
 
@@ -466,8 +485,22 @@ impl SymbolTable {
         }
     }
 
+    pub(crate) fn new_closure_scope(&self) -> Self {
+        Self {
+            base: Rc::new(RefCell::new(SymbolTableBase {
+                enclosing: Some(self.base.clone()),
+                is_closure_scope: true,
+                ..Default::default()
+            })),
+        }
+    }
+
     pub(crate) fn lookup_declaration(&self, id: &str) -> Option<Declaration> {
         self.base.borrow().lookup_declaration(id)
+    }
+
+    pub(crate) fn is_captured(&self, id: &str) -> bool {
+        self.base.borrow().is_captured(id)
     }
 
     pub(crate) fn lookup_namespace(&self, id: &str) -> Option<Rc<Namespace>> {
@@ -944,6 +977,16 @@ fn resolve_names_stmt(ctx: &mut StaticsContext, symbol_table: &SymbolTable, stmt
         StmtKind::Assign(lhs, _, rhs) => {
             resolve_names_expr(ctx, symbol_table, lhs);
             resolve_names_expr(ctx, symbol_table, rhs);
+            // a lambda or task works on its own copy of a captured variable
+            if let ExprKind::Variable(symbol) = &*lhs.kind
+                && symbol_table.is_captured(symbol)
+                && let Some(Declaration::Var(_)) = symbol_table.lookup_declaration(symbol)
+            {
+                ctx.errors.push(Error::GenericWithNode {
+                    msg: "Can't assign to a variable captured by a lambda or task".to_string(),
+                    node: lhs.node(),
+                });
+            }
         }
         StmtKind::Continue | StmtKind::Break => {}
         StmtKind::Return(expr) => {
@@ -1021,7 +1064,8 @@ fn resolve_names_expr(ctx: &mut StaticsContext, symbol_table: &SymbolTable, expr
             }
         }
         ExprKind::TaskBlock(block) => {
-            resolve_names_expr(ctx, symbol_table, block);
+            let symbol_table = symbol_table.new_closure_scope();
+            resolve_names_expr(ctx, &symbol_table, block);
         }
         ExprKind::IfElse(cond, stmt1, expr2) => {
             resolve_names_expr(ctx, symbol_table, cond);
@@ -1040,7 +1084,7 @@ fn resolve_names_expr(ctx: &mut StaticsContext, symbol_table: &SymbolTable, expr
             }
         }
         ExprKind::AnonymousFunction(args, out_ty, body) => {
-            let symbol_table = symbol_table.new_scope();
+            let symbol_table = symbol_table.new_closure_scope();
             resolve_names_func_helper(ctx, &symbol_table, args, body, out_ty);
         }
         ExprKind::Tuple(exprs) => {
